@@ -47,6 +47,17 @@ def _run(tier):
         ctx = lines[max(0, at - 2):at]
         c.report_failure("xbinary: recorded %s on mutated input not allowed by C16 (WireFormat!Total)" % xb.describe(ctx[-1] if ctx else ""),
                          {"rejected_at_line": at, "context": [l[:2000] for l in ctx]})
+    # megabytes of continuation bytes, in a process of its own (a decoder that recurses per byte kills the process)
+    ltrace = c.path("trace", "xbinary-long.ndjson")
+    if c.run_vh_crashcheck(["drive", xb.COMP, "-out", ltrace, "-x", "mode=longrun"],
+                           "xbinary: a decoder took the whole process down on a 16 MiB run of continuation bytes", timeout=300) is not None:
+        lok, lat = xb.validate(c, ltrace, False, "C16", label="WireTrace-long")
+        if lok:
+            c.traces_validated += 1
+        else:
+            ll = open(ltrace).read().splitlines()
+            c.report_failure("xbinary: %s on a 16 MiB run of continuation bytes not allowed by C16" % xb.describe(ll[lat - 1]),
+                             {"rejected_at_line": lat, "context": ll[max(0, lat - 1):lat]})
     if not c.quick():
         if ok and not c.violations:
             selftest(c, emits, lines)
